@@ -2,6 +2,7 @@ mod c01;
 mod c02;
 mod c03;
 mod c11;
+mod c12;
 mod c14;
 mod c18;
 mod cosm;
@@ -71,6 +72,7 @@ fn main() {
         "C06" => hist::run(seed, n, &mut out, false),
         "C07" => hist::run(seed, n, &mut out, true),
         "C18" => c18::run(seed, n, &mut out, args.get(5).map(|s| s.as_str()).unwrap_or("quick")),
+        "C12" => c12::run(seed, n, &mut out),
         "PARSE" => c11::run_parse(seed, n, &mut out),
         "C11" => c11::run(seed, n, &mut out, args.get(5).map(|s| s.as_str()).unwrap_or("quick")),
         "C02" => c02::run(seed, n, &mut out, args.get(5).map(|s| s.as_str()).unwrap_or("quick")),
